@@ -26,7 +26,11 @@ impl PanicInfo {
             }
         }
         if msg.len() > 120 {
-            msg.truncate(120);
+            let mut end = 120;
+            while !msg.is_char_boundary(end) {
+                end -= 1;
+            }
+            msg.truncate(end);
         }
         let file = self.file.rsplit("/src/").next().unwrap_or(&self.file).to_string();
         format!("panic[{}]@{}", msg, file)
